@@ -134,11 +134,14 @@ pub(crate) struct Tracker {
     pub bind: BTreeMap<Key, usize>,
     pub frames: Vec<Vec<u8>>,
     pub machinery: Vec<String>,
+    /// false when the device declared that IT computes the IPv4 header checksum on transmit
+    /// (capability Rx / None): the field the stack leaves behind is then not judged
+    pub judge_ip_cksum: bool,
 }
 
 impl Tracker {
     pub fn new(eth: bool, dev_mtu: usize) -> Tracker {
-        Tracker { eth, dev_mtu, exps: vec![], bind: BTreeMap::new(), frames: vec![], machinery: vec![] }
+        Tracker { eth, dev_mtu, exps: vec![], bind: BTreeMap::new(), frames: vec![], machinery: vec![], judge_ip_cksum: true }
     }
     pub fn expect(&mut self, e: Exp) -> usize {
         self.exps.push(e);
@@ -165,7 +168,7 @@ impl Tracker {
                 return;
             }
         };
-        if !f.hdr_cksum_ok {
+        if self.judge_ip_cksum && !f.hdr_cksum_ok {
             out.push(Viol::new("C12/tx/header-checksum/bad", format!("IPv4 header checksum wrong: {}", describe(&f))));
         }
         if f.key.0 != OUR_IP || mac_of(f.key.1).is_none() {
@@ -377,6 +380,9 @@ pub(crate) enum Step {
     /// instead of polling to quiescence, so that its remaining fragments are still pending in
     /// the stack when the step after it happens
     Hold(u16),
+    /// configuration pseudo-step (leading): the device declares checksum capabilities variant
+    /// CSUM_VARIANTS[i]
+    Csum(u8),
 }
 impl Step {
     fn to_json(self) -> Value {
@@ -387,6 +393,7 @@ impl Step {
             Step::IdStart(v) => json!(["id-start", v]),
             Step::EchoB(n) => json!(["echo-b", n]),
             Step::Hold(k) => json!(["hold", k]),
+            Step::Csum(i) => json!(["csum", i]),
         }
     }
     fn from_json(v: &Value) -> Option<Step> {
@@ -398,6 +405,7 @@ impl Step {
             "id-start" => Some(Step::IdStart(n as u16)),
             "echo-b" => Some(Step::EchoB(n)),
             "hold" => Some(Step::Hold(n as u16)),
+            "csum" => Some(Step::Csum(n as u8)),
             _ => None,
         }
     }
@@ -406,7 +414,7 @@ impl Step {
         match self {
             Step::Udp(n) => 28 + n,
             Step::Raw(n) | Step::Echo(n) | Step::EchoB(n) => 20 + n,
-            Step::IdStart(_) | Step::Hold(_) => 0,
+            Step::IdStart(_) | Step::Hold(_) | Step::Csum(_) => 0,
         }
     }
 }
@@ -426,11 +434,9 @@ pub(crate) struct ScenarioResult {
 /// None and nothing more comes out.
 pub(crate) fn run_scenario(eth: bool, ip_mtu: usize, steps: &[Step]) -> ScenarioResult {
     let mut viols = vec![];
-    let id_start = match steps.first() {
-        Some(Step::IdStart(v)) => Some(*v),
-        _ => None,
-    };
-    let mut net = match Net::new_id(eth, ip_mtu, id_start) {
+    let id_start = steps.iter().find_map(|s| if let Step::IdStart(v) = s { Some(*v) } else { None });
+    let csum = steps.iter().find_map(|s| if let Step::Csum(i) = s { Some(*i) } else { None }).unwrap_or(0);
+    let mut net = match Net::new_full(eth, ip_mtu, id_start, csum) {
         Ok(n) => n,
         Err(e) => {
             return ScenarioResult { viols, machinery: vec![e], frames: vec![], n_frames: 0, polls: 0, outcomes: vec![], udp_zero_cksum: 0 }
@@ -439,6 +445,13 @@ pub(crate) fn run_scenario(eth: bool, ip_mtu: usize, steps: &[Step]) -> Scenario
     let hu = net.add_udp(UDP_PORT0, 1, 64, 2, 4096);
     let hr = net.add_raw(1, 64, 2, 4096);
     let mut tr = Tracker::new(eth, net.dev_mtu());
+    let caps = csum_caps(csum);
+    tr.judge_ip_cksum = stack_computes_on_tx(&caps.ipv4);
+    // raw::Socket::dispatch zeroes the header checksum when the device computes it on transmit
+    // and then re-parses the packet with receive-side verification: under ipv4=Rx every raw
+    // packet is dropped by the SOCKET before it reaches the interface (src/socket/raw.rs). That is
+    // a socket/capability matter, not fragmentation: lenient, the datagram may be absent as a whole.
+    let raw_may_vanish = !stack_computes_on_tx(&caps.ipv4) && matches!(caps.ipv4, smoltcp::phy::Checksum::Rx);
     let fragbuf = smoltcp::config::FRAGMENTATION_BUFFER_SIZE;
     let mut outcomes = vec![];
     let mut hold: Option<u16> = None;
@@ -462,7 +475,7 @@ pub(crate) fn run_scenario(eth: bool, ip_mtu: usize, steps: &[Step]) -> Scenario
         let must_fit = st.ip_len() <= ip_mtu || st.ip_len() <= fragbuf;
         let mut accepted = true;
         let ei = match *st {
-            Step::IdStart(_) => {
+            Step::IdStart(_) | Step::Csum(_) => {
                 outcomes.push("config");
                 continue;
             }
@@ -497,6 +510,9 @@ pub(crate) fn run_scenario(eth: bool, ip_mtu: usize, steps: &[Step]) -> Scenario
         };
         if !accepted {
             // send() refused the datagram: nothing may appear
+            tr.exps[ei].optional = true;
+        }
+        if raw_may_vanish && matches!(st, Step::Raw(_)) {
             tr.exps[ei].optional = true;
         }
         if !must_fit {
@@ -657,9 +673,30 @@ pub(crate) fn run_s1(rep: &mut Report, tier: Tier) {
                 v.dedup();
                 v
             };
-            per_mtu.insert(format!("{}/{}", medium_name(eth), mtu), json!({"lengths": lens.len(), "beyond_buffer": beyond.len(), "fragment_payload": piece}));
+            // boundary lengths for the non-default checksum capability variants (quick tier)
+            let mut bl = vec![0usize, 1, 7, 8, 9, max_payload - 1, max_payload];
+            for k in 1..=(max_payload + 8) / piece {
+                for d in [-8i64, -1, 0, 1, 8] {
+                    let n = (k * piece) as i64 + d - 8;
+                    if n >= 0 && n as usize <= max_payload {
+                        bl.push(n as usize);
+                    }
+                }
+            }
+            bl.sort();
+            bl.dedup();
+            let other = if tier == Tier::Thorough { lens.clone() } else { bl };
+            per_mtu.insert(
+                format!("{}/{}", medium_name(eth), mtu),
+                json!({"lengths": lens.len(), "lengths_per_non_default_checksum_variant": other.len(), "beyond_buffer": beyond.len(), "fragment_payload": piece}),
+            );
             for &n in lens.iter().chain(beyond.iter()) {
                 cases.push((eth, mtu, vec![Step::Udp(n)]));
+            }
+            for c in 1..CSUM_VARIANTS.len() as u8 {
+                for &n in other.iter().chain(beyond.iter()) {
+                    cases.push((eth, mtu, vec![Step::Csum(c), Step::Udp(n)]));
+                }
             }
         }
     }
@@ -675,7 +712,7 @@ pub(crate) fn run_s1(rep: &mut Report, tier: Tier) {
         json!({"what": "one UDP datagram per fresh interface, polled until poll_at is None and nothing more comes out",
             "domain": Value::Object(per_mtu), "datagrams": cases.len(), "frames_checked": frames, "polls": polls,
             "outcomes": outcomes, "udp_checksum_zero_accepted_leniently": zero,
-            "beyond_buffer_udp_payload_lengths": beyond,
+            "beyond_buffer_udp_payload_lengths": beyond, "checksum_capability_variants": CSUM_VARIANTS,
             "fragmented_and_complete_on_wire": nontrivial}),
     );
     // samples
@@ -703,7 +740,9 @@ pub(crate) fn run_s1b(rep: &mut Report, tier: Tier) {
             for &l1 in &lens {
                 for k2 in 0..3u8 {
                     for &l2 in &lens {
-                        cases.push((eth, mtu, vec![mk(k1, l1), mk(k2, l2)]));
+                        for c in 0..CSUM_VARIANTS.len() as u8 {
+                            cases.push((eth, mtu, if c == 0 { vec![mk(k1, l1), mk(k2, l2)] } else { vec![Step::Csum(c), mk(k1, l1), mk(k2, l2)] }));
+                        }
                     }
                 }
             }
@@ -717,7 +756,7 @@ pub(crate) fn run_s1b(rep: &mut Report, tier: Tier) {
     rep.cov(
         "s1b",
         json!({"what": "two datagrams one after the other on one interface, each polled to quiescence; kinds udp / raw / inbound echo request (reply is ingress-triggered)",
-            "domain": {"media": ["ip", "ethernet"], "ip_mtu": mtu, "kinds": ["udp", "raw", "echo"], "ip_payload_lengths": lens},
+            "domain": {"media": ["ip", "ethernet"], "ip_mtu": mtu, "kinds": ["udp", "raw", "echo"], "ip_payload_lengths": lens, "checksum_capability_variants": CSUM_VARIANTS},
             "pairs": cases.len(), "frames_checked": frames, "polls": polls, "outcomes_per_datagram": outcomes}),
     );
 }
